@@ -6,6 +6,8 @@
         placed    = [entry ids], missing = [{id,label,file,why}], sentinels = [ids of sentinel entries that WERE placed],
         windows   = [ids of "window" entries placed (W labels: always placed, transparent in the comparison run)],
         multi     = {id of an "all" entry: number of occurrences instrumented},
+        acq_sites = ["<Recv.Func>#<ordinal>:<text>"]  every mutex acquisition found by text in the files of the table's
+                    "acquisitions" section (a line ending in one of its "suffixes"); each got `verifStep("A:<site>")` in front,
         log       = [str])
 
 Never raises on an edited tree: an anchor that is not found is reported in `missing`, everything else is placed.
@@ -103,6 +105,50 @@ def _find_all(lines, lo, hi, alts):
     return out
 
 
+def _funcs(lines):
+    """[(name, start, end)] of the gofmt'd top-level functions; methods are named Recv.Func."""
+    out = []
+    i = 0
+    while i < len(lines):
+        l = lines[i]
+        if l.startswith("func "):
+            m = re.match(r"func\s+(?:\(\s*\w*\s*\*?\s*(\w+)[^)]*\)\s*)?(\w+)", l)
+            name = None
+            if m:
+                name = (m.group(1) + "." if m.group(1) else "") + m.group(2)
+            j = i
+            if not l.rstrip().endswith("}"):
+                j = i + 1
+                while j < len(lines) and lines[j].rstrip() != "}":
+                    j += 1
+            if name:
+                out.append((name, i, min(j, len(lines) - 1)))
+            i = j + 1
+        else:
+            i += 1
+    return out
+
+
+def _acq_pass(lines, suffixes):
+    """Inserts `verifStep("A:<func>#<n>:<text>")` before every mutex acquisition found by text. -> (new lines, [sites])"""
+    sites = []
+    inserts = []
+    for name, lo, hi in _funcs(lines):
+        n = 0
+        for i in range(lo + 1, hi + 1):
+            t = lines[i].strip()
+            if not t or t.startswith("//") or t.startswith("defer ") or t.startswith("go ") or "verifStep(" in t:
+                continue
+            if any(t.endswith(sfx) for sfx in suffixes):
+                n += 1
+                site = "%s#%d:%s" % (name, n, t.replace(" ", "_").replace('"', ""))
+                sites.append(site)
+                inserts.append((i, _indent(lines[i]) + 'verifStep("A:%s")' % site))
+    for i, text in sorted(inserts, reverse=True):
+        lines[i:i] = [text]
+    return lines, sites
+
+
 def _held_at(lines, lo, anchor, opn, close):
     held = False
     for i in range(lo, anchor):
@@ -122,7 +168,7 @@ def instrument(table_path, workdir, repo):
     workdir = Path(workdir)
     repo = Path(repo)
     tab = json.loads(Path(table_path).read_text())
-    out = dict(overlay={}, replaces={}, placed=[], missing=[], sentinels=[], windows=[], multi={}, log=[])
+    out = dict(overlay={}, replaces={}, placed=[], missing=[], sentinels=[], windows=[], multi={}, acq_sites=[], log=[])
     roots = {"repo": repo}
     inst_root = workdir / "instr"
     shutil.rmtree(inst_root, ignore_errors=True)
@@ -215,6 +261,33 @@ def instrument(table_path, workdir, repo):
             out["overlay"][str(repo / rel)] = str(dst)
         else:
             path.write_text("\n".join(lines))
+
+    # every mutex acquisition found by text, in whole files (after the anchors: the model's yield points stay in front of theirs)
+    acq = tab.get("acquisitions") or {}
+    for f in acq.get("files", []):
+        root, rel = f["root"], f["file"]
+        if root not in roots:
+            continue
+        src = roots[root] / rel
+        cur = Path(out["overlay"].get(str(repo / rel), src)) if root == "repo" else src
+        try:
+            lines = cur.read_text().split("\n")
+        except OSError as ex:
+            out["log"].append("acquisitions: %s unreadable: %s" % (rel, ex))
+            continue
+        try:
+            lines, sites = _acq_pass(lines, acq.get("suffixes", [".Lock()", ".RLock()"]))
+        except Exception as ex:  # noqa
+            out["log"].append("acquisitions: %s: %r" % (rel, ex))
+            continue
+        out["acq_sites"] += sites
+        if root == "repo":
+            dst = inst_root / rel
+            dst.parent.mkdir(parents=True, exist_ok=True)
+            dst.write_text("\n".join(lines))
+            out["overlay"][str(repo / rel)] = str(dst)
+        else:
+            src.write_text("\n".join(lines))
 
     for f in tab.get("add_files", []):
         root = f["root"]
